@@ -188,15 +188,16 @@ def gen_case(rng):
     me, ml, mv = ren([t[0] for t in trip]), ren([t[1] for t in trip]), ren([t[2] for t in trip])
     trip = [(me[e], ml[l], mv[v]) for e, l, v in trip]
     restored = rng.random() < 0.4
+    if rng.random() < 0.12: restored = 'torn'
     return dict(env_params=[gen_params(rng) for _ in me], lrn_params=[gen_params(rng) for _ in ml], val_params=[gen_params(rng) for _ in mv],
-                rows=[(t, gen_rows(rng)) for t in trip], gz=rng.random() < 0.4, restored=restored, fail=[t for t in trip if rng.random() < 0.4],
+                rows=[(t, gen_rows(rng)) for t in trip], gz=rng.random() < 0.4, restored=restored, torn_bytes=rng.randrange(0, 13), fail=[t for t in trip if rng.random() < 0.4], empty_first=[t for t in trip if rng.random() < 0.2],
                 fault=None if restored or rng.random() < 0.7 else (rng.choice(['interrupt', 'unencodable']), rng.choice(trip)))
 
 def run_case(ctx, case, tmpdir, reqs, metas):
     from coba.experiments import Experiment
     from coba.results import Result
     envs, lrns, vals, triples, table, fail, calls = build(case)
-    brief = dict(gz=case['gz'], restored=case['restored'], fault=case.get('fault'), rows=[[list(t), [{repr(k): repr(v) for k, v in r.items()} for r in rows]] for t, rows in case['rows']])
+    brief = dict(gz=case['gz'], restored=case['restored'], torn_bytes=case.get('torn_bytes'), empty_first=case.get('empty_first'), fault=case.get('fault'), rows=[[list(t), [{repr(k): repr(v) for k, v in r.items()} for r in rows]] for t, rows in case['rows']])
     def fl(kind, what, extra=None):
         d = dict(brief); d['detail'] = extra
         ctx.fail(kind, what, d)
@@ -212,16 +213,24 @@ def run_case(ctx, case, tmpdir, reqs, metas):
         del calls[:]
     path = os.path.join(tmpdir, "r%d.log%s" % (len(os.listdir(tmpdir)), ".gz" if case['gz'] else ""))
     try:
-        if case['restored']:
+        if case['restored'] == 'torn':      # the file of an earlier run that was killed while writing its very first record (or that holds just a line break)
+            import gzip
+            head = b'["version",4]\n'
+            raw = gzip.compress(head) if case['gz'] else head
+            k = case.get('torn_bytes', 5)
+            open(path, "wb").write(b"\n" if (k == 0 and not case['gz']) else raw[:max(1, min(k, len(raw) - 1))])
+        elif case['restored']:
             for (e, l, v) in case['fail']: fail.add((e, l, v))
+            saved = {tuple(t): table[tuple(t)] for t in case.get('empty_first', [])}      # evaluations that came up without rows in the earlier run
+            for t in saved: table[t] = []
             Experiment(triples).run(path, quiet=True, processes=1, maxchunksperchild=0)
-            fail.clear()
+            fail.clear(); table.update(saved)
         r_file = Experiment(triples).run(path, quiet=True, processes=1, maxchunksperchild=0)
         r_from = Result.from_file(path)
     except Exception as e:
         fl(["run", "raises-file", errname(e)], "Experiment.run(file) / Result.from_file raised %s: %s" % (errname(e), e)); return
     t_mem, t_file, t_from = tables(r_mem), tables(r_file), tables(r_from)
-    mode = ("gz" if case['gz'] else "plain") + ("+restored" if case['restored'] else "") + ("+" + case['fault'][0] if case.get('fault') else "")
+    mode = ("gz" if case['gz'] else "plain") + ("+torn-start" if case['restored'] == 'torn' else "+restored" if case['restored'] else "") + ("+" + case['fault'][0] if case.get('fault') else "")
     if not same(t_file, t_from): fl(["three-way", "file-vs-from_file", mode], "run(file) and Result.from_file(file) differ (%s)" % mode, first_diff(t_file, t_from))
     if not same(t_file, t_mem): fl(["three-way", "file-vs-memory", mode], "run(file) and run() differ (%s)" % mode, first_diff(t_file, t_mem))
     # ---- the three parameter tables
